@@ -2,6 +2,7 @@ package h
 
 import (
 	"bytes"
+	"encoding/binary"
 	"encoding/hex"
 	"fmt"
 	"reflect"
@@ -218,6 +219,30 @@ func laneEnc(name string) (int, int, bool) {
 
 func (e EncSpec) Encoder() encode.Encoder {
 	if w, _, ok := laneEnc(e.Name); ok {
+		if e.Name[0] == 'T' {
+			// the same integer widths through a TypeEncoder in its default
+			// (little-endian) form; a big-endian encoder of the same type has been
+			// made before it, as a program that uses both byte orders would
+			var zero interface{}
+			switch w {
+			case 1:
+				zero = int8(0)
+			case 2:
+				zero = int16(0)
+			case 4:
+				zero = int32(0)
+			default:
+				zero = int64(0)
+			}
+			if _, err := encode.NewTypeEncoderEndian(zero, binary.BigEndian); err != nil {
+				panic(err)
+			}
+			te, err := encode.NewTypeEncoder(zero)
+			if err != nil {
+				panic(err)
+			}
+			return te
+		}
 		switch w {
 		case 1:
 			return encode.I8{}
@@ -642,7 +667,67 @@ const (
 	InstFresh = "fresh"
 	InstUnm   = "unmarshal"
 	InstProto = "proto"
+	// InstUnmUsed: the stream is loaded by a direct st.Unmarshal (no Reset) into a
+	// receiver that holds ANOTHER, larger trie and has answered every kind of read
+	// (so that anything a read or a build derives lazily exists and is stale).
+	InstUnmUsed = "unmarshal-into-used"
 )
+
+var donorKeys = func() []string {
+	var ks []string
+	for _, a := range []byte("abc") {
+		for _, b := range []byte("012") {
+			ks = append(ks, "donor/"+string([]byte{a, b}))
+		}
+	}
+	ks = append(ks, "donor/a0/long-tail", "e", "e\xff\xff")
+	sort.Strings(ks)
+	return ks
+}()
+
+// UsedReceiver builds the donor trie (Complete mode, 12 keys with a root prefix,
+// values of the given encoder) and asks it every kind of read.
+func UsedReceiver(encName string) *trie.SlimTrie {
+	ids := make([]int, len(donorKeys))
+	for i := range ids {
+		ids[i] = 1 + i/2
+	}
+	c := &Case{Keys: donorKeys, ValIDs: ids, Enc: encName, Opt: Opt4{D: 1, I: 0, L: 0, C: 1}}
+	b, p := Build(c)
+	if p != nil || b.Err != nil || b.ST == nil {
+		// an encoder that cannot carry the donor's values: value-less donor
+		c.ValIDs = nil
+		b, p = Build(c)
+		if p != nil || b.Err != nil || b.ST == nil {
+			st, _ := trie.NewSlimTrie(b.Encoder, nil, nil)
+			return st
+		}
+	}
+	st := b.ST
+	Safely(func() {
+		for _, q := range []string{"", "donor/a0", "donor/a00", "donor/b1", "donor/b2\x00", "donor/c2", "donor/zz", "d", "e", "e\xff", "e\xff\xff", "f", "\xff"} {
+			st.Get(q)
+			st.GetID(q)
+			st.RangeGet(q)
+			st.Search(q)
+		}
+		st.Stat()
+		_ = st.String()
+		st.Marshal()
+		proto.Size(st)
+		n := 0
+		st.ScanFrom("donor/c", true, true, func(k, v []byte) bool { n++; return n < 9 })
+		st.ScanFromTo("donor/b2", false, "e\xff", true, true, func(k, v []byte) bool { return true })
+		it := st.NewIter("donor/c", true, true)
+		for i := 0; i < 4; i++ {
+			it()
+		}
+	})
+	for _, f := range []func(){func() { st.GetI8("donor/a1") }, func() { st.GetI16("donor/a1") }, func() { st.GetI32("donor/a1") }, func() { st.GetI64("donor/a1") }} {
+		Safely(f)
+	}
+	return st
+}
 
 // LoadUnmarshal = Unmarshal(Marshal(st)) into a new empty instance.
 func LoadUnmarshal(st *trie.SlimTrie, enc encode.Encoder) (*trie.SlimTrie, []byte, error) {
@@ -686,9 +771,24 @@ func (b *Built) Instances(kinds []string) (map[string]*trie.SlimTrie, error) {
 			}
 			r[k] = st
 		case InstProto:
-			st, _, err := LoadProto(b.ST, b.Encoder)
+			// into a used receiver: proto.Unmarshal resets the message first
+			buf, err := proto.Marshal(b.ST)
 			if err != nil {
-				return nil, fmt.Errorf("proto.Unmarshal(proto.Marshal()) failed: %v", err)
+				return nil, fmt.Errorf("proto.Marshal failed: %v", err)
+			}
+			st := UsedReceiver(b.Case.Enc)
+			if err := proto.Unmarshal(buf, st); err != nil {
+				return nil, fmt.Errorf("proto.Unmarshal(proto.Marshal()) into a used receiver failed: %v", err)
+			}
+			r[k] = st
+		case InstUnmUsed:
+			buf, err := b.ST.Marshal()
+			if err != nil {
+				return nil, fmt.Errorf("Marshal failed: %v", err)
+			}
+			st := UsedReceiver(b.Case.Enc)
+			if err := st.Unmarshal(buf); err != nil {
+				return nil, fmt.Errorf("Unmarshal(Marshal()) into a used receiver failed: %v", err)
 			}
 			r[k] = st
 		default:
